@@ -144,6 +144,15 @@ def check_split(case, out):
 
 @st.composite
 def join_split_cases(draw):
+    if draw(st.integers(0, 4)) == 0:
+        # rational curves in which only the weight function (or only the numerator) has a kink at an interior knot:
+        # cut exactly there, so that the junction knot is needed by one half of the homogeneous representation only
+        Ulow, plow = draw(gen.knotvectors(1, 2, 1))
+        bkl = gen.breaks_of(Ulow)
+        z = (bkl[0] + bkl[1]) / 2
+        Uhigh = sorted(Ulow + [z] * draw(st.integers(1, plow)))
+        c, kind = draw(gen.special_rational(Ulow, plow, Uhigh, plow))
+        return {"curve": c, "cuts": [z], "special": kind}
     c = draw(gen.curves(0, 3, 3, nums=("frac",), rational=draw(st.integers(0, 4)) < 2))
     bk = gen.breaks_of(c["U"])
     pool = list(bk[1:-1]) * 2
@@ -159,6 +168,9 @@ def check_join_split(case, out):
     bk = oracle.breaks(ref.U)
     cuts = [bk[0]] + list(case["cuts"]) + [bk[-1]]
     kind = "rational" if ref.w is not None else "polynomial"
+    if case.get("special"):
+        out.cls("special=" + case["special"])
+        kind += ";" + case["special"]
     pieces = [oracle.restrict_state(ref, lo, hi) for lo, hi in zip(cuts[:-1], cuts[1:])]
     curves = [build_from_state(s) for s in pieces]
     snaps = [lib.snapshot(c) for c in curves]
